@@ -93,7 +93,13 @@ func ComposeDot(w io.Writer, g *Graph, a *DotAttributes, c *DotConfig) {
 
 	// Add edges to DOT builder. Sort edges by frequency as a hint to the graph layout engine.
 	for _, e := range edges.Sort() {
-		builder.addEdge(e, nodeIDMap[e.Src], nodeIDMap[e.Dest], hasNodelets[e.Src])
+		from, to := nodeIDMap[e.Src], nodeIDMap[e.Dest]
+		if from == 0 || to == 0 {
+			// An end of the edge is not a node of the graph: there is no
+			// declared DOT node the edge could refer to.
+			continue
+		}
+		builder.addEdge(e, from, to, hasNodelets[e.Src])
 	}
 }
 
